@@ -538,3 +538,29 @@ def rr(prog, body, e):
     """Normalised rendering of e after resolving a top-level captured variable to its defining body."""
     b2, e2 = resolve(prog, body, e)
     return Norm(b2).r(e2)
+
+
+def const_dead_edges(body):
+    """Edges of switches on a compile-time constant (e.g. `cfg!(debug_assertions)`) that can never be taken."""
+    dead = set()
+    for bi in body.live:
+        info = body.switch_info(bi)
+        if not info:
+            continue
+        v = const_val(info[0])
+        if v is None:
+            continue
+        want = {"true" if v else "false", v, str(v)}
+        live_t = [tg for tg, ls in info[1].items() if ls & want]
+        if not live_t:
+            live_t = [tg for tg, ls in info[1].items() if "otherwise" in ls]
+        for tg in info[1]:
+            if tg not in live_t:
+                dead.add((bi, tg))
+    return dead
+
+
+def passes_nodes(body, starts, target_bb, nodes):
+    """Every feasible path from `starts` to target_bb passes a block in `nodes` (constant switches evaluated, hoisted bools tracked)."""
+    r = body.reachable_bool(starts, blocked_nodes=set(nodes), blocked_edges=const_dead_edges(body))
+    return target_bb not in r
